@@ -55,7 +55,7 @@ class Lock:
 def lib_vfiles():
     """all .v files except Properties/ (those are compiled by the checks themselves, with their output captured)"""
     out = []
-    for d in ('Spec', 'Gen', 'Model', 'Extract'):
+    for d in ('Spec', 'Gen', 'Model'):
         p = os.path.join(COQ, d)
         if os.path.isdir(p):
             for f in sorted(os.listdir(p)):
